@@ -3,7 +3,7 @@ import json
 
 from gen_rust import key
 
-NAMED = {"RecList", "RecTree", "RecEnum"}
+NAMED = {"RecList", "RecTree", "RecEnum", "Throwable"}
 
 
 def name_str(n):
@@ -163,6 +163,15 @@ def render_enum(gen, name, ty):
 
 
 NAMED_SRC = {
+    "Throwable": '''#[derive(desert_macro::BinaryCodec)]
+pub struct Throwable { pub class_name: String, pub message: String,
+    pub stack_trace: Vec<(Option<String>, Option<String>, Option<String>, dv::VarU32, )>, pub cause: Option<Box<Throwable>> }
+impl dv::ModelType for Throwable {
+    fn from_model(v: &serde_json::Value) -> Self { let a = dv::model::arr(v); Throwable { class_name: dv::ModelType::from_model(&a[1]),
+        message: dv::ModelType::from_model(&a[2]), stack_trace: dv::ModelType::from_model(&a[3]), cause: dv::ModelType::from_model(&a[4]) } }
+    fn to_model(&self) -> serde_json::Value { serde_json::json!([20, dv::ModelType::to_model(&self.class_name), dv::ModelType::to_model(&self.message),
+        dv::ModelType::to_model(&self.stack_trace), dv::ModelType::to_model(&self.cause)]) }
+}''',
     "RecList": '''#[derive(desert_macro::BinaryCodec)]
 pub struct RecList { pub v: u8, pub next: Option<Box<RecList>> }
 impl dv::ModelType for RecList {
